@@ -411,3 +411,9 @@ func joinParts(parts [][]byte) []byte {
 	}
 	return d
 }
+
+// targetDirNames: names for the target directory itself. Nothing in them is special to the
+// operating system; a library that expands, trims or escapes them ends up somewhere else.
+var targetDirNames = []string{"target", "target", "target", "target", "out$dir", "price-${x}-list", "$HOME", "~user", "with space", "%TEMP%", "tar.get", "-target", "täŕget"}
+
+func genTargetDirName(c *Ctx) string { return targetDirNames[c.Draw(len(targetDirNames))] }
